@@ -62,14 +62,17 @@ META = dict(
               'oracle',
     level_text='Each run drives a real WBEMListener (HTTP port, in 3 of 10 '
                'runs also an HTTPS port) with 1-3 concurrent '
-               'sender threads x 1-3 indications, 1-2 callbacks (0-40 ms, '
+               'sender threads x 1-3 indications, 1-2 callbacks (functions, '
+               'functools.partial objects, callable objects; the last one '
+               'registered while the listener runs in 35 % of the runs; 0-40 ms, '
                'some raising Exception subclasses, some raising SystemExit / '
                'KeyboardInterrupt / GeneratorExit / another BaseException), '
                'senders that stall (partial body, partial headers, no bytes '
                'at all, half-closed) and are still connected when stop() is '
                'called, start() calls that fail part-way (bad / empty / '
                'missing certificate or key file, port already bound) followed '
-               'by indications to the port that did start and by '
+               'by indications to the port that did start (senders already '
+               'connecting while the failing start() runs) and by '
                'stop()/start(), bounded/unbounded queues and a main thread '
                'calling stop() (and start() again) at a seeded point, while '
                'seeded sleeps (random 0-30 ms, PCT-style 50-300 ms change '
